@@ -313,7 +313,9 @@ type summary struct {
 
 // caseRng: the random choices for a case depend on the seed and the case alone, not on the order in which TLC's
 // workers wrote the cases.
-func caseRng(seed int64, h uint64) *rand.Rand { return rand.New(rand.NewSource(seed*1000003 ^ int64(h))) }
+func caseRng(seed int64, h uint64) *rand.Rand {
+	return rand.New(rand.NewSource(seed*1000003 ^ int64(h)))
+}
 
 func readCases(path string, sum *summary, fn func(c *scenario, h uint64)) {
 	seen := map[string]bool{}
